@@ -207,6 +207,11 @@ func jsonHelper(raw []byte, limit uint32, q string, wantTok int) bool {
 // types.
 func NdJSON(raw []byte, limit uint32) bool {
 	lCount, objOrArr := 0, 0
+	// dropLastLine also drops the line terminator in front of the cut line. An
+	// empty (LF only) line right before it would go uncounted: count it here.
+	if cut := dropLastLine(raw, limit); len(cut) < len(raw) && bytes.HasSuffix(cut, []byte("\n")) {
+		lCount++
+	}
 	raw = dropLastLine(raw, limit)
 	var l []byte
 	for len(raw) != 0 {
